@@ -39,14 +39,14 @@ func (s *Service) scheduleAttestations(ctx context.Context,
 
 	// Obtaining the duties and setting up their jobs must not be interleaved with a refresh,
 	// otherwise jobs for duties that the refresh has replaced could be set up after it.
-	s.attesterDutiesMutex.Lock()
-	defer s.attesterDutiesMutex.Unlock()
+	s.attesterDutiesMutexes[uint64(epoch)%dutiesMutexes].Lock()
+	defer s.attesterDutiesMutexes[uint64(epoch)%dutiesMutexes].Unlock()
 
 	s.scheduleAttestationsLocked(ctx, epoch, validatorIndices, notCurrentSlot)
 }
 
 // scheduleAttestationsLocked schedules attestations for the given epoch and validator indices.
-// The caller must hold attesterDutiesMutex.
+// The caller must hold the attester duties mutex of the epoch.
 func (s *Service) scheduleAttestationsLocked(ctx context.Context,
 	epoch phase0.Epoch,
 	validatorIndices []phase0.ValidatorIndex,
